@@ -435,13 +435,9 @@ End SeqP.
 Lemma Zeqb_spec x y : Z.eqb x y = true <-> x = y.
 Proof. apply Z.eqb_eq. Qed.
 
-(* The encoding/operation outside the claim: join is not offered for byte arrays by
-   the implementation (it fails with an error; recorded as a known finding). *)
-Definition supported (e : enc) (c : scall) : bool :=
-  match e, c with
-  | EBytes, CJoin j (p :: ps) => is_nil j && forallb is_nil (p :: ps)
-  | _, _ => true
-  end.
+(* Every encoding offers every operation (join and repeat on byte arrays were repaired in the
+   implementation); the predicate is kept so that the statements read as before. *)
+Definition supported (e : enc) (c : scall) : bool := true.
 
 Lemma ref_join_all_nil (l : list (list Z)) : forallb is_nil l = true -> ref_join [] l = [].
 Proof.
@@ -468,10 +464,7 @@ Proof.
     + destruct delim; reflexivity.
     + destruct e; simpl; rewrite ?array_split_ref by apply Zeqb_spec; reflexivity.
   - (* join *) unfold m_join. destruct parts as [|p ps]; [reflexivity|].
-    destruct e; try (simpl; rewrite ?array_join_ref; reflexivity).
-    cbn [supported] in Hs. cbn [forget]. rewrite Hs.
-    apply andb_true_iff in Hs as [Hj Hall]. destruct joiner; [|discriminate].
-    cbn [forget]. rewrite ref_join_all_nil by exact Hall. reflexivity.
+    destruct e; simpl; rewrite ?array_join_ref; reflexivity.
   - (* sub *) unfold m_sub. destruct subject as [|x s]; simpl.
     + destruct old; simpl; [rewrite app_nil_r|]; reflexivity.
     + destruct e; simpl; rewrite ?array_sub_ref by apply Zeqb_spec; reflexivity.
